@@ -48,7 +48,7 @@ def run_known_witnesses(pid):
     lines = []
     for e in known_for(pid):
         wit = os.path.join(VERIF, e['witness'])
-        status = witness_status(wit)
+        status = witness_status(wit, e.get('build', 'asan'))
         if status[0] != 'pass' and (status[1] == e['failure_code'] or e.get('any_code')):
             lines.append('KNOWN-FINDING: property=%s %s (%s)' % (pid, e['summary'], e['id']))
         elif status[0] == 'pass':
@@ -58,7 +58,7 @@ def run_known_witnesses(pid):
     return lines
 
 
-def witness_status(path):
+def witness_status(path, build='asan'):
     import configs as cfggen
     hdr = {}
     for line in open(path):
@@ -66,7 +66,7 @@ def witness_status(path):
         if len(w) == 2 and w[0] in ('property', 'config', 'code', 'runner'):
             hdr[w[0]] = w[1].strip()
     cfg = cfggen.parse_name(hdr['config'])
-    b = core.Builder()
+    b = core.Builder(tag=build)
     built = b.build_all([cfg])
     binp, log = built[cfg['name']]
     if binp is None:
